@@ -470,6 +470,16 @@ class ScheduleNTasksInTimeIntervals(TaskConstraint):
             )
             # each task is counted once, even if intervals overlap
             all_bools.append(task_in_time_intervals)
+            # a task that does not lie in a time interval is scheduled outside of it:
+            # it cannot partially overlap the interval
+            for lower_bound, upper_bound in self.list_of_time_intervals:
+                self.set_z3_assertions(
+                    z3.Or(
+                        z3.And(task._start >= lower_bound, task._end <= upper_bound),
+                        task._end <= lower_bound,
+                        task._start >= upper_bound,
+                    )
+                )
 
         # we also have to exclude all the other cases, where start or end can be between two intervals
         # then set the constraint for the number of tasks to schedule
